@@ -452,8 +452,7 @@ def r7_drain_keep_rest(ctx, P, R="C08.R7"):
     ctx.floor(R, "paths of Drain::keep_rest", n, 4)
 
 
-def r6_zst_sibling_agreement(ctx, P):
-    R = "C08.R6"
+def r6_zst_sibling_agreement(ctx, P, R="C08.R6"):
     ctx.rule(R, "sibling implementations of one operation (same method name in the slice box, the fixed vector and the "
                 "growable vectors) ask IS_ZST of the same type: the stored element type decides the dangling-pointer / "
                 "capacity usize::MAX convention, not the container's own element (e.g. [T; N] in into_flattened)")
